@@ -31,6 +31,15 @@ static bool A_CAS_guard(int* expected, int desired, int mo) {
   g_guard = desired; g_i_hold_setting = 1;
   return 1;
 }
+/* an unconditional exchange is a write like any other: it must be a transition this thread's guarantee allows (kUnset -> kSetting only) */
+static int A_XCHG_guard(int desired, int mo) {
+  others_act(); A_NOTE(mo);
+  int old = g_guard;
+  __CPROVER_assert(old == kUnset && desired == kSetting, "guarantee: the only read-modify-write on the guard is kUnset -> kSetting (an exchange over kSetting / kSet destroys another thrower's claim or a published exception)");
+  if (!MO_HAS_ACQUIRE(mo)) g_bad_order = 1;
+  g_guard = desired; if (old == kUnset && desired == kSetting) g_i_hold_setting = 1;
+  return old;
+}
 static void A_STORE_guard(int v, int mo) {
   others_act(); A_NOTE(mo);
   if (!MO_HAS_RELEASE(mo)) g_bad_order = 1;
